@@ -795,7 +795,11 @@ pub fn c06(ix: &Index) -> Vec<Viol> {
                 ));
             }
             if must && here.len() < per_copy_expected * ncopies {
-                let sig = if default_cancel {
+                let tvt = src_vt(h, e0.src);
+                let cut = inconsistent_cut_possible(h, unit, Some((a.vt, a.t))) || (Some(a.vt) != tvt && cycle_spans(h, a.t.1, target_fin.0));
+                let sig = if cut {
+                    "attachment-lost:inconsistent-cut".to_string()
+                } else if default_cancel {
                     "attachment-lost:after-noop-cancel".to_string()
                 } else {
                     format!("attachment-lost:{:?}", a.route)
@@ -1728,7 +1732,11 @@ pub fn c04(ix: &Index) -> Vec<Viol> {
             let c0 = r.cancel_t[0].0;
             for (bi, b) in h.batches.iter().enumerate() {
                 for x in b.records.iter().filter(|x| x.trace_id.0 == trace) {
-                    let cut = r.cancel_vt.first().map_or(false, |cv| *cv != r.create_vt) && cycle_spans(h, r.create_t.1, c0);
+                    // drop consumed before start, or commit consumed before drop
+                    let cut = r.cancel_t.iter().zip(r.cancel_vt.iter()).any(|(c, cv)| {
+                        (*cv != r.create_vt && cycle_spans(h, r.create_t.1, c.0))
+                            || r.finish_t.map_or(false, |f| Some(*cv) != r.finish_vt && cycle_spans(h, c.1, f.0))
+                    }) || inconsistent_cut_possible(h, u, None);
                     let full_at = |vt: Option<usize>, t: (T, T)| {
                         h.hooks.iter().any(|e| e.vt == vt && e.t > t.0 && e.t < t.1 && matches!(e.kind, HookKind::BeforePush { free: 0, .. }))
                     };
